@@ -873,3 +873,29 @@ def check_inventory(ctx, rule, name, inv, ceilings, bodies):
     ctx.ob(rule, "%s: inventory computed" % name, True, msg="%d panic-capable sites in %d bodies: %s" %
            (len(inv), len(bodies), {k: len(v) for k, v in counts.items()}), nontrivial=False)
     return counts
+
+
+def limit_guard(ctx, rule, instance, site, count_pat, limit_pat, desc, unit_increment=False, inclusive=False):
+    """Growth site must be dominated by an edge implying count < limit (strict) — or count <= limit when
+    `inclusive` (the documented bound allows `limit` itself to be exceeded by one, e.g. check-after-push idioms).
+    Accepted edges: false of `count >= limit`, true of `count < limit`, (unit_increment) false of `count == limit` /
+    true of `count != limit`; with inclusive also false of `count > limit`, true of `count <= limit`."""
+    body = site.body
+    ctx.bodies.add(body.npath)
+    good, weak = strict_limit_edges(body, count_pat, limit_pat, unit_increment)
+    edges = set(good) | (set(weak) if inclusive else set())
+    ok = bool(edges) and body.must_pass_edges(site.bb, edges)
+    msg = ("bounded: " if ok else "not bounded: ") + desc
+    if not ok and weak and not inclusive and body.must_pass_edges(site.bb, set(good) | set(weak)):
+        msg += " — only a non-strict guard (`count > limit` / `count <= limit`) protects this site, which admits limit+1"
+    ctx.ob(rule, instance, ok, site.loc(), msg)
+    return ok
+
+
+def at_limit_edges(body, count_pat, limit_pat):
+    """Edges on which count >= limit is known (rejection side)."""
+    out = set()
+    for bi, tgt, op, lab in cmp_guard(body, count_pat, limit_pat, None):
+        if (op, lab) in (("Ge", "true"), ("Lt", "false"), ("Eq", "true"), ("Ne", "false")):
+            out.add((bi, tgt))
+    return out
